@@ -62,11 +62,12 @@ def pctEnc (s : Txt) : String :=
     then String.singleton (Char.ofNat c) else "%" ++ hexByte c)
 
 def showAtom : Atom → String
-  | .int i => "t" ++ pctEnc (txt (toString i))
+  | .int i => "t" ++ pctEnc (intText i)
   | .flt b => "f" ++ hexN 16 (if isNaN64 b then canonNaN64 else b)
   | .str s => "t" ++ pctEnc s
   | .scaled _ _ _ => "q"
   | .degrees _ => "g"
+  | .raw t => "r" ++ pctEnc t
 
 def showCell (withValues : Bool) (c : Cell) : String :=
   pctEnc c.name ++ "~" ++ toString c.val.length ++ "~" ++ pctEnc c.units ++
@@ -139,7 +140,7 @@ def hCsv : Handler := fun r =>
       | .kf =>
         "-"   -- no open finding (KF-C19-1…6 fixed in /repo)
       | .prop => propCsv opts files r.impl
-      | .spec => "n/a"
+      | .spec => "scope=" ++ csvScopeWhy opts files   -- evidence only (family csv is not run with spec=True): which conjunct of the scope fails
     | _, _ => if r.mode == .model then "bad-op" else if r.mode == .kf then "-" else "n/a"
   | [] => if r.mode == .model then "bad-op" else if r.mode == .kf then "-" else "n/a"
 
